@@ -82,12 +82,22 @@ Inductive ev :=
 Inductive scase :=
 | SCase (g : graph) (hintchans : list Z) (en : env) (rs : restr)
         (amt src dst last_size attempt minprob_bits : Z)
+        (bsz : list (Z * Z * Z))          (* from, to, payload size of blinded edges *)
         (evs : list ev)
         (result : option (list edge)).    (* returned path / errNoPathFound *)
 
 Section Sim.
   Variables (g : graph) (hintchans : list Z) (en : env) (rs : restr).
   Variables (amt src dst last_size : Z) (pen minprob : float).
+  Variable bsz : list (Z * Z * Z).
+
+  (* BlindedEdge.IntermediatePayloadSize does not depend on amount / expiry /
+     channel: an oracle value per blinded edge *)
+  Fixpoint bsz_get (f t : Z) (l : list (Z * Z * Z)) : option Z :=
+    match l with
+    | [] => None
+    | (f', t', s) :: r => if (f' =? f) && (t' =? t) then Some s else bsz_get f t r
+    end.
 
   Let K := FK pen.
 
@@ -137,7 +147,10 @@ Section Sim.
           if negb ((r_send (d_e pv) ue =? a) && (e_cap ue =? cap)) then None
           else
             let ep := f_of_bits pbits in
-            let payload := inter_size a (n_cltv (d_e pv)) (e_chan ue) in
+            let payload := match bsz_get from to bsz with
+                           | Some sz => sz
+                           | None => inter_size a (n_cltv (d_e pv)) (e_chan ue)
+                           end in
             match exec K g en rs amt src dst minprob s (LRelax K ue payload ep) with
             | None => None
             | Some s' =>
@@ -210,9 +223,9 @@ End Sim.
 
 Definition check_scase (c : scase) : list N :=
   match c with
-  | SCase g hintchans en rs amt src dst last_size attempt minprob_bits evs result =>
+  | SCase g hintchans en rs amt src dst last_size attempt minprob_bits bsz evs result =>
     check_search g hintchans en rs amt src dst last_size
-                 (f_of_Z attempt) (f_of_bits minprob_bits) evs result
+                 (f_of_Z attempt) (f_of_bits minprob_bits) bsz evs result
   end.
 
 Fixpoint smismatches (cases : list scase) (i : N) : list (N * list N) :=
